@@ -1,13 +1,29 @@
 #!/usr/bin/env python3
-"""MANIFEST.setup_cmd: nothing to build ahead of time (python + pre-installed verus/kani); sanity-check the tools."""
-import shutil, subprocess, sys
+"""MANIFEST.setup_cmd: sanity-check the pre-installed tools and warm the build caches under work/ (all of them are
+rebuilt on demand by the checks themselves; nothing here is needed for correctness)."""
+import os
+import shutil
+import subprocess
+import sys
+
+ROOT = os.path.dirname(os.path.dirname(os.path.abspath(__file__)))
+sys.path.insert(0, os.path.join(ROOT, "tools"))
 ok = True
-for t in ("verus", "cargo"):
+for t in ("verus", "cargo", "rustc"):
     if not shutil.which(t):
-        print("missing tool:", t); ok = False
+        print("missing tool:", t)
+        ok = False
 try:
     subprocess.run(["cargo", "kani", "--version"], capture_output=True, timeout=120, check=True)
-except Exception as e:
-    print("cargo kani not usable:", e); ok = False
+except Exception as e:  # noqa
+    print("cargo kani not usable:", e)
+    ok = False
+try:
+    import gen_run
+    exe, cfg, err = gen_run.build(ROOT, os.environ.get("VERIF_REPO", "/repo"), os.path.join(ROOT, "work", "setup-gen"))
+    print("gen unit warm-up:", "ok" if exe else ("skipped: " + str(err)[:300]))
+    shutil.rmtree(os.path.join(ROOT, "work", "setup-gen"), ignore_errors=True)
+except Exception as e:  # noqa
+    print("gen unit warm-up skipped:", e)
 print("setup ok" if ok else "setup incomplete")
 sys.exit(0 if ok else 1)
